@@ -40,7 +40,8 @@ def cliOp (args impl : List String) : Option (String × String) := do
     else cargs
   -- mode=file: the generator writes only valid files (validation is the `plan` op's business); the limits are the file's
   let r : Res Cli.Plan :=
-    if isFile then
+    if isFile ∧ (get "fpath").isSome then .err          -- a path that cannot be read (a directory, a missing file): refused
+    else if isFile then
       .ok { interval := 0, users := false, conc := cargs.conc.getD 1, maxDur := ((get "fdur").bind String.toInt?).getD 1000 * 1000000,
             maxIt := cargs.maxIt.getD 0, maxFail := cargs.maxFail.getD 0, maxFailRate := cargs.maxFailRate.getD 0,
             ignDrop := cargs.ignDrop }
